@@ -46,7 +46,7 @@ class ServerPeer:
         self.delivered = []  # (t, bytes)
 
     def deliver(self, data):
-        if self.sock.closed or self.sock.eof:
+        if self.sock.eof:
             return
         self.delivered.append((self.s.now, data))
         self.sock.deliver(data)
